@@ -11,6 +11,7 @@ sys.path.insert(0, str(Path(__file__).resolve().parent.parent / 'translate'))
 import lib  # noqa
 import c19_caches  # noqa
 import c19_slots  # noqa
+import c19_slotcode  # noqa
 
 SOLID = ('tet', 'hex', 'prism')
 SHELL = ('tri', 'quad')
@@ -835,6 +836,13 @@ def main(ctx):
     except SyntaxError as e:
         tie_ok = False
         ctx.notes['translator_error'] = 'syntax error: ' + str(e)
+    # translator validation: the in-place analysis on fixed positive / negative forms
+    st_bad = c19_caches.selftest()
+    ctx.notes['translator_selftest'] = st_bad or 'passed (8 parameter forms, 4 call-site forms)'
+    if st_bad:
+        ctx.violation('tie-broken', {'failed': st_bad}, 'translator self-test passes', 'it does not',
+                      'translator c19_caches (in-place analysis)', found_input=False,
+                      signature={'kind': 'translator-selftest'})
     if degraded is not None:
         # T -> H: the translator cannot read the tree under test.  That alone is not a
         # violation: the inventory last translated from the registered tree (committed,
@@ -885,12 +893,45 @@ def main(ctx):
     ctx.notes['cfg_ok'] = cfg_ok
     ctx.notes['model_failing_clauses'] = len(fails or [])
 
+    # ---- the slot helpers: translated (T) into gen/SlotCode.v and proved equal to the hand model
+    #      Slot.v there; if they cannot be read, the hand model stands alone (H) with the widened
+    #      correspondence below - not an alarm
+    slot_tie, slot_code_ok = 'T', True
+    stub = None
+    try:
+        terms, src_sha = c19_slotcode.translate(str(lib.REPO))
+        ctx.sources.update(src_sha)
+        lib.write_if_changed(lib.COQ / 'C19' / 'gen' / 'SlotCode.v', c19_slotcode.emit(terms))
+    except (c19_slotcode.SlotTranslateError, SyntaxError, OSError) as e:
+        slot_tie = 'H'
+        stub = str(e)
+        ctx.notes['slot_tie'] = ('H (translator could not read the slot helpers: ' + stub +
+                                 '; hand model Slot.v + widened in-Coq correspondence)')
+        lib.write_if_changed(lib.COQ / 'C19' / 'gen' / 'SlotCode.v',
+                             '(* GENERATED: the slot helpers of the tree under test are outside the grammar of\n'
+                             '   translate/c19_slotcode.py; the hand model Slot.v is tied by the correspondence. *)\n')
+    if proof_ok and slot_tie == 'T':
+        slot_code_ok, log = ctx.build_props('C19/gen/SlotCode.v')
+        if not slot_code_ok:
+            ctx.notes['slotcode_build_log_tail'] = log[-1200:]
+        else:
+            ctx.notes['slot_tie'] = ('T (gen/SlotCode.v: _validate_metric, _slot_answers, _store_slot translated and '
+                                     'proved equal to Slot.v) + H (in-Coq correspondence)')
     # ---- the concrete slot protocol (coq/C19/Slot.v) against the implementation, evaluated in Coq
     if proof_ok:
-        n_slot = 150 if ctx.tier == 'quick' and degraded is None else 600
+        widened = ctx.tier != 'quick' or degraded is not None or slot_tie == 'H' or not slot_code_ok
+        n_slot = 600 if widened else 150
         for k in range(0, n_slot, 300):
             c19_slots.run(ctx, gen_mesh, min(300, n_slot - k), tag=f'_{k // 300}')
         ctx.log('slot correspondence:', ctx.notes.get('slot_correspondence'))
+        if not slot_code_ok:
+            ctx.violation('proof-broken', {'log': ctx.notes.get('slotcode_build_log_tail', '')[-600:]},
+                          'the translated slot helpers are extensionally the model Slot.v (lemmas *_gen_ok)',
+                          'the equivalence proofs do not check for the code as translated' +
+                          (' (and the correspondence found failing inputs, reported separately)'
+                           if ctx.notes.get('slot_correspondence', {}).get('disagreements') else ''),
+                          'validate_gen_ok / slot_answers_gen_ok / store_slot_gen_ok (gen/SlotCode.v)',
+                          found_input=False, signature={'kind': 'slotcode-not-equivalent'})
 
     # catalogue = known queries + memoised queries of the inventory the catalogue does not know
     cat = dict(CATALOGUE)
